@@ -16,6 +16,7 @@ KINDS = ['file', 'empty', 'tree', 'link_file', 'link_dir', 'link_dangling',
 def config(tier):
     return {
         'level': 'exploration',
+        'real_sample': 6 if tier == 'quick' else 40,
         'cases': 2500 if tier == 'quick' else 60000,
         'budget_s': 50 if tier == 'quick' else 560,
         'floors': {'cases': 200, 'roundtrips_ok': 150, 'history_steps': 100,
